@@ -353,3 +353,156 @@ class GetActionProbs(Contract):
         else:
             out.append(("C15.requested-probs", z3.Implies(inr, e == S.extra["p"])))
         return out
+
+
+# ---------------------------------------------------------------------------- _convert_to_*_map / _get_host_value
+# the name -> bool maps of a generated host: keys = the generator's name lists in list order (what HostVector.vectorize /
+# _initialize rely on), value = the drawn configuration (names 0..n-1 stand for the generated "srv_i" / "proc_i" / "os_i")
+
+from pyvc.values import SDict, SymDict, nameval
+
+cfg_bit = z3.Function("gen_cfg_bit", I_, B_)
+
+
+def gen_names(n, label):
+    return SymSeq(n, lambda j: mk(ival(j), "name"), label)
+
+
+def conv_spec(d, k, val_of):
+    x = z3.Int("cv_x")
+    if isinstance(d, PyDict):
+        zero = z3.is_int_value(z3.simplify(k)) and z3.simplify(k).as_long() == 0
+        return [("map-holds-the-first-names", z3.BoolVal(bool(zero and not d.d and not d.sym)))]
+    if not isinstance(d, SDict):
+        return [("map-holds-the-first-names", z3.BoolVal(False))]
+    return [("keys-are-the-first-names", z3.ForAll([x], z3.Select(d.dom, x) == z3.And(0 <= x, x < k))),
+            ("values-are-the-configuration", z3.ForAll([x], z3.Implies(z3.And(0 <= x, x < k), z3.Select(d.val, x) == val_of(x))))]
+
+
+class _ConvLoop(LoopContract):
+    ordinal = 0
+    tags = ("C15", "C09")
+    var, targets = None, ()
+
+    def snapshot(self, I, fr, seq):
+        return {}
+
+    def val_of(self, x):
+        return cfg_bit(x)
+
+    def havoc(self, I, fr, entry, seq):
+        A = z3.ArraySort
+        names = fr.locals["self"].fields[self.names_field]
+        # ghost iteration order: names are inserted in list order and are pairwise distinct
+        fr.locals[self.var] = SDict(1, "bool", I.ctx.fresh(self.var + "_dom", A(I_, B_)), I.ctx.fresh(self.var + "_val", A(I_, B_)),
+                                    keyseq=SymSeq(seq.n, names.elem, self.var + ".keys"), fresh=True, label=self.var)
+        for t in self.targets:
+            fr.locals.pop(t, None)
+
+    def inv(self, I, fr, entry, seq, k):
+        return conv_spec(fr.locals[self.var], k, self.val_of)
+
+
+@loop_contract
+class ConvSrvLoop(_ConvLoop):
+    qualname = GQ + "_convert_to_service_map"
+    var, targets, names_field = "service_map", ("srv", "val"), "services"
+
+
+@loop_contract
+class ConvProcLoop(_ConvLoop):
+    qualname = GQ + "_convert_to_process_map"
+    var, targets, names_field = "process_map", ("proc", "val"), "processes"
+
+
+@loop_contract
+class ConvOsLoop(_ConvLoop):
+    qualname = GQ + "_convert_to_os_map"
+    var, targets, names_field = "os_map", ("os_name",), "os"
+
+    def val_of(self, x):
+        return x == z3.Int("gen_host_os")
+
+
+class _ConvertMap(Contract):
+    callable_by_contract = False
+    bounded = False
+    tags = {"": ("C15", "C09")}
+    names_field = None
+
+    def setup(self, I, variant):
+        n = z3.Int("gen_n_names")
+        I.ctx.assume(n >= 1)
+        g = gen_obj(I, **{self.names_field: gen_names(n, self.names_field)})
+        S = Scope()
+        S.extra["n"] = n
+        S.a = {"self": g}
+        S.call_args = ([g, self.argument(n)], {})
+        return S
+
+    def argument(self, n):
+        # one drawn configuration: a list of n booleans
+        return SymSeq(n, lambda j: SymV(cfg_bit(ival(j)), "bool"), "list")
+
+    def val_of(self, x):
+        return cfg_bit(x)
+
+    def ensures(self, I, S):
+        d, n = S.result, S.extra["n"]
+        out = [("C15.map-" + l, t) for l, t in conv_spec(d, n, self.val_of)]
+        if isinstance(d, SDict) and d.keyseq is not None:
+            j = z3.Int("cv_kj")
+            out.append(("C09.map-keys-in-list-order", z3.And(ival(d.keyseq.n) == n, z3.ForAll([j], z3.Implies(
+                z3.And(0 <= j, j < n), nameval(d.keyseq.elem(j)) == j)))))
+        else:
+            out.append(("C09.map-keys-in-list-order", z3.BoolVal(False)))
+        return out
+
+
+@contract
+class ConvertToServiceMap(_ConvertMap):
+    qualname = GQ + "_convert_to_service_map"
+    names_field = "services"
+
+
+@contract
+class ConvertToProcessMap(_ConvertMap):
+    qualname = GQ + "_convert_to_process_map"
+    names_field = "processes"
+
+
+@contract
+class ConvertToOsMap(_ConvertMap):
+    """exactly the drawn OS is marked as running"""
+    qualname = GQ + "_convert_to_os_map"
+    names_field = "os"
+
+    def argument(self, n):
+        return SymV(z3.Int("gen_host_os"), "name")
+
+    def val_of(self, x):
+        return x == z3.Int("gen_host_os")
+
+
+@contract
+class GenGetHostValue(Contract):
+    """value of a generated host: its sensitive value if it is a sensitive host, else the base host value"""
+    qualname = GQ + "_get_host_value"
+    callable_by_contract = False
+    bounded = False
+    tags = {"": ("C15",)}
+
+    def setup(self, I, variant):
+        sens = z3.Function("gen_is_sensitive", I_, I_, B_)
+        sval = z3.Function("gen_sensitive_value", I_, I_, R_)
+        a, b, base = z3.Int("gen_addr_s"), z3.Int("gen_addr_h"), z3.Real("gen_base_value")
+        sh = SymDict(lambda k: sens(ival(k[0]), ival(k[1])), lambda k: mk(sval(ival(k[0]), ival(k[1])), "real"), label="sensitive_hosts")
+        g = gen_obj(I, sensitive_hosts=sh, base_host_value=SymV(base, "real"))
+        S = Scope()
+        S.extra.update(want=z3.If(sens(a, b), sval(a, b), base))
+        S.a = {"self": g}
+        S.call_args = ([g, (SymV(a, "int"), SymV(b, "int"))], {})
+        return S
+
+    def ensures(self, I, S):
+        return [("C15.host-value", rval(S.result) == S.extra["want"])]
